@@ -63,7 +63,7 @@ def transmitTr (s : Srv) (to : Tok) : List LEv :=
     match to with
     | .none => []
     | .zero => within .instances []
-    | .badNode => within .instances []                        -- lookup of the instance, then "no TreeNode"
+    | .badNode => within .instances [] ++ within .instances (cleanTr s .K)   -- lookup of the instance, "no TreeNode": `cleanTreeStorage`
     | .done =>
       if s.doneMark then within .instances (cleanTr s .K)     -- done test, `cleanTreeStorage`
       else if s.doneLive then within .instances [] ++ qOp
